@@ -35,6 +35,10 @@ CHECKS = {
  'C12': dict(engine='A', technique='bounded model checking (cbmc/SAT, pointer and deallocation checks) of real constructor/destructor pairs and container operations lowered through LLVM IR',
    text='Unit-level necessary conditions only: owners of optional components (LiveOutputManager, ...) constructed on storage with arbitrary previous content free only what they allocated, for every option combination; container harnesses of C01/C07/C08 run with bounds and pointer checks. Whole runs are not encodable and are NOT claimed.',
    note='Partial by construction: exit status and memory safety of complete runs in every mode are outside this technique (whole program, I/O, OpenMP runtime).', ref='DESIGN.md section 5 C12'),
+
+ 'C16': dict(engine='B+A', technique='symbolic execution (z3, IEEE-UF + bit-vectors) of the real Morton key and Cartesian index/wrap/wall-intersection code; cbmc for the long-index bijection and for the bit-precise top-wall index query',
+   text='Partial: Morton key == bit interleave for symbolic positions; periodic wrap / outside test / wall-intersection bookkeeping on symbolic indices; long-index bijection; and the bit-precise question whether a position in the half-open box can get cell index n (answer: yes - known finding D8, replayed on the real grid).',
+   note='Outside: AMR refinement histories, Voronoi, path conservation of the legacy traversal as numbers, search structures; upper index bound as an unsat FP fact (no back end finished).', ref='DESIGN.md section 5 C16'),
 }
 NA = {
 }
